@@ -1,6 +1,12 @@
 //! vp-conn: in-process monitors of `passage_protocol::connection::Connection` under virtual time
 //! (properties C01 C02 C03 C04 C06 C07 C08 C10).
 
+mod c01;
+mod c02;
+mod c03;
+mod c06;
+mod c10;
+mod cookie;
 mod mk;
 mod scenario;
 
@@ -20,6 +26,11 @@ fn main() {
     }
     let code = match cli.prop.as_str() {
         "smoke" => mk::smoke(&cli),
+        "C01" => c01::run_prop(&cli),
+        "C02" => c02::run_prop(&cli),
+        "C03" => c03::run_prop(&cli),
+        "C06" => c06::run_prop(&cli),
+        "C10" => c10::run_prop(&cli),
         other => {
             println!("[{other}] INCONCLUSIVE: vp-conn does not serve this property");
             2
